@@ -1095,6 +1095,44 @@ fn float_sweep(cx: &mut Ctx, rng: &mut Rng, n: u64) {
     }
 }
 
+/// a Lua float of ANY value returned by a script (`lua_to_resp`: `n as i64`) against `LuaConv.f64ToI64` on the bit
+/// pattern: fractions (both signs), ±0, subnormals, the neighbourhood of ±2^63 and ±2^53, infinities, NaNs, random
+/// bit patterns; the double reaches the script byte-exactly through ARGV and `string.unpack`
+fn float_reply_sweep(cx: &mut Ctx, rng: &mut Rng, n: u64) {
+    let mut vals: Vec<u64> = vec![
+        3.7f64.to_bits(), (-3.7f64).to_bits(), 0.5f64.to_bits(), (-0.99f64).to_bits(), 0f64.to_bits(), (-0f64).to_bits(), 5f64.to_bits(), 1e20f64.to_bits(), (-1e20f64).to_bits(),
+        f64::INFINITY.to_bits(), f64::NEG_INFINITY.to_bits(), f64::NAN.to_bits(), 0x7ff0000000000001, 0xfff8000000000000, 1, 0x8000000000000001, 0x000fffffffffffff, 0x0010000000000000,
+        f64::MAX.to_bits(), f64::MIN.to_bits(), 1.5e300f64.to_bits(),
+    ];
+    for base in [9223372036854775808f64, 9007199254740992f64, 4294967296f64, 1f64, 2f64] {
+        let b = base.to_bits();
+        for d in [-2i64, -1, 0, 1, 2] {
+            vals.push((b as i64 + d) as u64);
+            vals.push(((b as i64 + d) as u64) | (1u64 << 63));
+        }
+    }
+    for _ in 0..n {
+        let exp = match rng.below(4) { 0 => rng.range(1015, 1030), 1 => rng.range(1070, 1090), 2 => rng.below(2048), _ => rng.range(1023, 1086) };
+        let bits = (rng.below(2) << 63) | (exp << 52) | (rng.next() & ((1u64 << 52) - 1));
+        vals.push(bits);
+    }
+    for bits in vals {
+        let x = f64::from_bits(bits);
+        let mut ex = CommandExecutor::new();
+        let r = eval(&mut ex, "return (string.unpack('<d', ARGV[1]))", &vec![x.to_le_bytes().to_vec()]);
+        let line = match &r { Ok(v) => show_resp(v), Err(()) => "crash".to_string() };
+        cx.out.op(format!("N2I {:016x}", bits), line.clone());
+        cx.out.count("float-reply");
+        // Redis documents: a Lua number becomes an integer reply with the fraction dropped
+        if x.is_finite() && x.abs() < 9.0e18 {
+            if line != format!(":{}", x.trunc() as i64) {
+                cx.out.violation("C16:lua:float-reply-not-truncated", "a finite Lua float inside the i64 range returned by a script is not answered as the integer with the fraction dropped", json!({"bits": format!("{:016x}", bits), "value": format!("{:e}", x), "reply": line}));
+            }
+        }
+        cx.out.case(&format!("N2I {:016x}", bits), true);
+    }
+}
+
 /// integer literals: `str::parse::<i64 / u64 / u32>` against `parseI64` / `parseUnsigned` (accepted language,
 /// value and — unsigned — the error kind), on the boundary numerals and on random strings over the alphabet
 /// that matters (digits, signs, the characters other number syntaxes use)
@@ -2217,6 +2255,7 @@ pub fn run(a: &Args) {
     unicode_sweep(&mut cx);
     float_sweep(&mut cx, &mut rng, (a.n / 4).max(200));
     int_sweep(&mut cx, &mut rng, (a.n / 8).max(200));
+    float_reply_sweep(&mut cx, &mut rng, (a.n / 40).max(200));
     luaconv(&mut cx, &mut rng, (a.n / 10).max(100));
     lua_args(&mut cx);
     eval_plumbing(&mut cx);
